@@ -7,8 +7,13 @@
 
     Every handler is transcribed branch by branch, including the branches that send nothing
     and the Python exceptions that leave a handler (values of type [exn]).  The model is
-    parametrised by a [variant]: [V_orig] is the code before the repairs made for C07/C08
-    (main at dca1e6d), [V_fixed] the repaired code that is checked on every run.
+    parametrised by a [variant]: [V_fixed] is the repaired code that is checked on every run;
+    [V_orig] undoes the twelve first-round repairs (main at dca1e6d) and is only used by the
+    legacy refutation theorems.  The later repairs (proclock releases its lock in a finally clause,
+    failing hooks are answered with Unlikely Error, the hooks called after the answer cannot
+    produce a PDU, unknown / unparsable requests are answered by the ATT layer, Prepare Write is
+    refused on attributes that are not characteristic values) are modelled in their repaired form
+    only, for both variants.
     No proofs in this file. *)
 From Coq Require Import List NArith Arith Bool.
 From Whad Require Import Lib.Bytes.
@@ -158,6 +163,7 @@ Definition E_INVALID_HANDLE : N := 1.  Definition E_READ_NP : N := 2.  Definitio
 Definition E_INVALID_PDU : N := 4.  Definition E_AUTHENT : N := 5.  Definition E_INVALID_OFFSET : N := 7.
 Definition E_AUTHOR : N := 8.  Definition E_NOT_FOUND : N := 10.  Definition E_INVALID_LEN : N := 13.
 Definition E_ENCRYPTION : N := 15.  Definition E_UNSUPP_GROUP : N := 16.
+Definition E_NOT_SUPP : N := 6.  Definition E_UNLIKELY : N := 14.
 
 (** * Requests, hooks, events *)
 
@@ -214,9 +220,11 @@ Record hook_acts := mkActs {
   ha_written2 : option (N * bytes); ha_sub : option (N * bytes); ha_unsub : option (N * bytes) }.
 Definition no_acts : hook_acts := mkActs None None None None None None.
 
-(** One outcome per hook call site of a step ([h_written2] = the second call of the
-    'written' hook, made from the [except HookReturnValue] clause), the characteristic updates the
-    request-time hooks perform, and the values the hooks return. *)
+(** One outcome per hook call site of a step, the characteristic updates the request-time hooks
+    perform, and the values the hooks return.  ([h_written2] / [ha_written2] / [rr_written2] belonged
+    to the second call of the 'written' hook that the code made from its [except HookReturnValue]
+    clause; the 'written' hook is now called exactly once per write and these fields are no longer
+    consulted.) *)
 Record hook_oracle := mkHooks {
   h_read : hook_outcome; h_write : hook_outcome; h_written : hook_outcome; h_written2 : hook_outcome;
   h_sub : hook_outcome; h_unsub : hook_outcome; h_notif : hook_outcome; h_indic : hook_outcome;
@@ -225,9 +233,10 @@ Record hook_oracle := mkHooks {
 Definition no_hooks : hook_oracle :=
   mkHooks HReturn HReturn HReturn HReturn HReturn HReturn HReturn HReturn no_acts no_rets.
 
-(** Python exceptions leaving a handler; [ExHook o] = what the hook raised ([HRaiseOther]: its own
-    exception, otherwise the HookReturn* exception of [o]); [ExDeadlock] = the thread blocks for
-    ever on a lock that is held. *)
+(** Python exceptions leaving a handler or [Characteristic.value]'s setter; [ExHook o] = what a
+    notification / indication hook raised towards the application ([HRaiseOther]: its own exception,
+    otherwise the HookReturn* exception of [o]); [ExDeadlock] = the thread blocks for ever on a lock
+    that is held. *)
 Inductive exn := ExAttribute | ExType | ExIndex | ExHook (o : hook_outcome) | ExDeadlock.
 
 Definition exn_of_hook (o : hook_outcome) : exn := ExHook o.
@@ -318,7 +327,8 @@ Definition hook_error (st : state) (op op_author h : N) (o : hook_outcome) : hre
       err st (match r with Some x => x | None => OP_READ end)
              (match hh with Some x => x | None => h end)
              (match e with Some x => x | None => E_NOT_FOUND end)
-  | _ => raise st [] (exn_of_hook o)
+  | HRaiseOther => err st op h E_UNLIKELY   (* call_hook: HookFailure -> Unlikely Error *)
+  | _ => raise st [] (exn_of_hook o)        (* HReturn / HOverride: handled by the callers *)
   end.
 
 (** access check of the handlers for the characteristic whose VALUE attribute is at [h]:
@@ -374,7 +384,8 @@ Definition set_proc (st : state) (id : N) (b : bool) : state :=
   else mkState (st_db st) (st_enc st) (st_auth st) (st_connected st) (st_cur st)
                (map (fun j => if i_id j =? id then with_proc j b else j) (st_dead st)).
 
-(** [GattServer.notify] / [indicate] of instance [id] (under proclock, no txlock) *)
+(** [GattServer.notify] / [indicate] of instance [id] (under proclock, no txlock); proclock
+    releases the procedure lock in a finally clause: the hook's exception leaves the state as it was *)
 Definition notify_via (st : state) (id : N) (o : hook_outcome) (mk : N -> bytes -> att_pdu)
            (vh : N) (val : bytes) : hres :=
   match find_inst st id with
@@ -386,7 +397,7 @@ Definition notify_via (st : state) (id : N) (o : hook_outcome) (mk : N -> bytes 
         match o with
         | HReturn => done st [mk vh (trunc m3 val)]
         | HOverride x => done st [mk vh (trunc m3 x)]
-        | _ => raise (set_proc st id true) [] (exn_of_hook o)   (* proclock stays held *)
+        | _ => raise st [] (exn_of_hook o)
         end
   end.
 
@@ -457,14 +468,14 @@ Definition hook_act (st : state) (hk : hook_oracle) (act : option (N * bytes)) (
 
 Definition prepend (pd : list att_pdu) (r : hres) : hres := mkRes (r_state r) (pd ++ r_out r) (r_exc r).
 
-(** a hook whose exceptions nothing catches at this place *)
+(** [call_informative_hook]: a hook called once the request has been processed and answered
+    ('written', 'subscribed', 'unsubscribed'); whatever it raises is ignored *)
 Definition post_hook (st : state) (hk : hook_oracle) (act : option (N * bytes)) (o : hook_outcome)
            (out : list att_pdu) : hres :=
   let '(st1, pd, res) := hook_act st hk act o in
   match res with
   | HHang => raise st1 (out ++ pd) ExDeadlock
-  | HOut HReturn => done st1 (out ++ pd)
-  | HOut o' => raise st1 (out ++ pd) (ExHook o')
+  | HOut _ => done st1 (out ++ pd)
   end.
 
 Definition val_at (st : state) (h : N) : bytes :=
@@ -636,22 +647,17 @@ Definition write_value (st : state) (hk : hook_oracle) (op op_author h : N)
   match res1 with
   | HHang => raise st1 pd1 ExDeadlock
   | HOut HReturn =>
-      (* value stored, response sent, then the 'written' hook -- still inside the try block *)
-      let st2 := store st1 val in
-      let '(st3, pd3, res3) := hook_act st2 hk (ha_written (h_acts hk)) (h_written hk) in
-      let out3 := pd1 ++ rsp ++ pd3 in
-      match res3 with
-      | HHang => raise st3 out3 ExDeadlock
-      | HOut HReturn => done st3 out3
-      | HOut (HOverride x) =>
-          (* except HookReturnValue: store, respond AGAIN, call 'written' again (exceptions propagate) *)
-          post_hook (store st3 x) hk (ha_written2 (h_acts hk)) (h_written2 hk) (out3 ++ rsp)
-      | HOut HRaiseOther => raise st3 out3 (ExHook HRaiseOther)
-      | HOut o => prepend out3 (hook_error st3 op op_author h o)
-      end
+      (* value stored, response sent, then the 'written' hook *)
+      post_hook (store st1 val) hk (ha_written (h_acts hk)) (h_written hk) (pd1 ++ rsp)
   | HOut (HOverride x) =>
-      (* except HookReturnValue: store, respond, call 'written' (exceptions propagate) *)
+      (* except HookReturnValue: store, respond, call 'written' *)
       post_hook (store st1 x) hk (ha_written (h_acts hk)) (h_written hk) (pd1 ++ rsp)
+  | HOut HRaiseOther =>
+      (* HookFailure: Unlikely Error for a request, nothing for a command; the value is not written *)
+      match rsp with
+      | [] => done st1 pd1
+      | _ => prepend pd1 (hook_error st1 op op_author h HRaiseOther)
+      end
   | HOut o => prepend pd1 (hook_error st1 op op_author h o)
   end.
 
@@ -688,7 +694,12 @@ Fixpoint queue_add (h off : N) (val : bytes) (q : list (N * list (N * bytes))) :
 Definition h_prepare (st : state) (h off : N) (val : bytes) : hres :=
   match lookup h (st_db st) with
   | None => err st OP_PREP h E_INVALID_HANDLE
-  | Some _ => done (with_queues st (queue_add h off val (i_queues (st_cur st)))) [PPrepareWriteRsp h off val]
+  | Some a =>
+      match a_kind a with
+      | KValue => done (with_queues st (queue_add h off val (i_queues (st_cur st)))) [PPrepareWriteRsp h off val]
+      | KCccd => err st OP_PREP h E_NOT_SUPP     (* writable, but not through the queue *)
+      | _ => err st OP_PREP h E_WRITE_NP         (* same answer as for a Write Request *)
+      end
   end.
 
 (** [on_execute_write_request] *)
@@ -837,6 +848,17 @@ Definition locked (v : variant) (st : state) (body : state -> hres) : hres :=
     | Some e => mkRes (with_lock (r_state r) (negb (fx_finally v))) (r_out r) (Some e)
     end.
 
+(** [ATTLayer.on_packet]'s last branch: a PDU no other branch took is a request when its opcode is
+    even and has the command flag (0x40) cleared, Handle Value Confirmation (0x1E) excepted *)
+Definition req_opcode (o : N) : bool := (N.land o 65 =? 0) && negb (o =? 30).
+Definition KNOWN_REQUESTS : list N := [2; 4; 6; 8; 10; 12; 14; 16; 18; 22; 24].
+(** answered by the ATT layer itself (no GATT lock involved): Invalid PDU for a known request whose
+    parameters scapy could not dissect, Request Not Supported for an unknown one *)
+Definition unparsed (st : state) (o : N) : hres :=
+  if req_opcode o then
+    err st o 0 (if existsb (N.eqb o) KNOWN_REQUESTS then E_INVALID_PDU else E_NOT_SUPP)
+  else done st [].
+
 (** One PDU arriving from the client: ATTLayer.on_packet -> GattServer handler. *)
 Definition handle (v : variant) (st : state) (r : att_request) (hk : hook_oracle) : hres :=
   match r with
@@ -851,7 +873,7 @@ Definition handle (v : variant) (st : state) (r : att_request) (hk : hook_oracle
   | ReadBlob h off => locked v st (fun x => h_read_blob v x hk h off)
   | ReadMultiple hs =>
       match hs with
-      | [] => done st []                 (* scapy: no Read Multiple layer for an empty body *)
+      | [] => unparsed st OP_RMULT       (* scapy: no Read Multiple layer for an empty body *)
       | h :: _ => locked v st (fun x => err x OP_RMULT h E_INVALID_HANDLE)
       end
   | ReadByGroupType s e ty => locked v st (fun x => h_read_by_group v x s e ty)
@@ -863,7 +885,7 @@ Definition handle (v : variant) (st : state) (r : att_request) (hk : hook_oracle
   | Indication _ _ => locked v st (fun x => done x [PConfirmation])
   | Notification _ _ => done st []
   | Confirmation => done st []
-  | UnknownOp _ _ => done st []
+  | UnknownOp o _ => unparsed st o   (* unknown opcode, or known opcode with undissectable parameters *)
   end.
 
 (** The function of the design: state and PDUs of one request. *)
@@ -989,14 +1011,6 @@ Definition wf_hooks (hk : hook_oracle) : bool :=
   && wf_outcome (h_sub hk) && wf_outcome (h_unsub hk) && wf_outcome (h_notif hk) && wf_outcome (h_indic hk)
   && wf_acts (h_acts hk).
 
-(** the notification / indication hooks ([Profile.on_notification/on_indication]) return or
-    override the value; anything else they raise leaves the GATT procedure lock held (proclock
-    only releases it for AttError / GattTimeoutException) *)
-Definition returns_or_overrides (o : hook_outcome) : bool :=
-  match o with HReturn | HOverride _ => true | _ => false end.
-Definition notif_hooks_return (hk : hook_oracle) : bool :=
-  returns_or_overrides (h_notif hk) && returns_or_overrides (h_indic hk).
-
 (** no GATT instance has its procedure lock held *)
 Definition proc_free (st : state) : bool :=
   negb (i_proc_locked (st_cur st)) && forallb (fun i => negb (i_proc_locked i)) (st_dead st).
@@ -1012,16 +1026,6 @@ Definition pdu_fits (st : state) (p : att_pdu) : bool :=
   (att_size p <=? mtu_of st)
   || (negb (is_rsp p) && existsb (fun m => att_size p <=? N.max 23 m) (inst_mtus st)).
 
-Definition raises_other (o : hook_outcome) : bool := match o with HRaiseOther => true | _ => false end.
-(** hooks that return, override or answer with a HookReturn* error (never raise anything else) *)
-Definition hooks_behave (hk : hook_oracle) : bool :=
-  negb (raises_other (h_read hk) || raises_other (h_write hk) || raises_other (h_written hk)
-        || raises_other (h_written2 hk) || raises_other (h_sub hk) || raises_other (h_unsub hk)).
-(** a 'written'/'subscribed'/'unsubscribed' hook that returns normally *)
-Definition is_return (o : hook_outcome) : bool := match o with HReturn => true | _ => false end.
-Definition post_hooks_return (hk : hook_oracle) : bool :=
-  is_return (h_written hk) && is_return (h_written2 hk) && is_return (h_sub hk) && is_return (h_unsub hk).
-
 (** well-formed request: 16-bit fields in range, payload bytes, the PDU fits the MTU *)
 Definition h16 (n : N) : bool := n <? 65536.
 Definition wf_request (mtu : N) (r : att_request) : bool :=
@@ -1034,7 +1038,7 @@ Definition wf_request (mtu : N) (r : att_request) : bool :=
   | ReadByType128 s e ty => h16 s && h16 e && (nlen ty =? 16) && wf_bytes ty
   | Read h => h16 h
   | ReadBlob h off => h16 h && h16 off
-  | ReadMultiple hs => forallb h16 hs && negb (match hs with [] => true | _ => false end)
+  | ReadMultiple hs => forallb h16 hs
   | ReadByGroupType s e ty => h16 s && h16 e && h16 ty
   | Write h v | WriteCmd h v | SignedWriteCmd h v | Indication h v | Notification h v => h16 h && wf_bytes v
   | PrepareWrite h off v => h16 h && h16 off && wf_bytes v
@@ -1049,10 +1053,15 @@ Definition is_request (r : att_request) : bool :=
   | ExchangeMtu _ | FindInfo _ _ | FindByTypeValue _ _ _ _ | ReadByType _ _ _ | ReadByType128 _ _ _
   | Read _ | ReadBlob _ _ | ReadMultiple _ | ReadByGroupType _ _ _ | Write _ _ | PrepareWrite _ _ _
   | ExecuteWrite _ => true
+  | UnknownOp o _ => req_opcode o
   | _ => false
   end.
 Definition is_command (r : att_request) : bool :=
-  match r with WriteCmd _ _ | SignedWriteCmd _ _ | Notification _ _ | Confirmation => true | _ => false end.
+  match r with
+  | WriteCmd _ _ | SignedWriteCmd _ _ | Notification _ _ | Confirmation => true
+  | UnknownOp o _ => negb (req_opcode o)
+  | _ => false
+  end.
 Definition is_indication (r : att_request) : bool := match r with Indication _ _ => true | _ => false end.
 
 Definition queue_entry_ok (db : db_t) (q : N * list (N * bytes)) : bool :=
@@ -1181,19 +1190,14 @@ Fixpoint every_step (P : state -> att_request -> hook_oracle -> Prop) (st : stat
 Definition step_ok (st : state) (r : att_request) (hk : hook_oracle) : Prop :=
   let st' := fst (server_step st r hk) in
   let out := snd (server_step st r hk) in
-  (tx_locked st = false -> proc_free st = true -> notif_hooks_return hk = true ->
-     tx_locked st' = false /\ proc_free st' = true)
+  (tx_locked st = false -> proc_free st = true -> tx_locked st' = false /\ proc_free st' = true)
   /\ Forall (fun p => pdu_fits st p = true) out
   /\ (forall s e, req_range r = Some (s, e) -> Forall (fun p => list_rsp_ok s e p = true) out)
-  /\ (tx_locked st = false -> proc_free st = true -> notif_hooks_return hk = true ->
-      hooks_behave hk = true -> is_return (h_written hk) = true ->
+  /\ (tx_locked st = false -> proc_free st = true ->
       let rsp := filter is_rsp out in
       (is_request r = true -> length rsp = 1%nat)
       /\ (is_command r = true -> (length rsp <= 1)%nat)
       /\ (is_indication r = true -> rsp = [PConfirmation])).
-
-(** every notification / indication hook of the session returns or overrides *)
-Definition quiet_notif (s : session) : Prop := Forall (fun x => notif_hooks_return (snd x) = true) s.
 
 (** * A small concrete database (witnesses, non-vacuity) *)
 Definition demo_db : db_t := [
